@@ -42,12 +42,15 @@ Definition ttyp (e : texpr) : ity :=
 
 (* ------------------------------------------------------------------ CSemantics *)
 Record semv := mk_semv { v_promote : ity -> ity;            (* type promote() coerces a promotable type to *)
-                         v_common : ity -> ity -> ity }.    (* get_common_type *)
+                         v_common : ity -> ity -> ity;      (* get_common_type *)
+                         v_cassign : bool }.                (* `x op= e`: true = rhs promoted and coerced to the type
+                                                               of `x op e` (fixes/C01-compound-assign.diff),
+                                                               false = rhs coerced to the type of x *)
 
 (* /repo before commit c83990b (kept for the historical _refuted theorems) *)
 (* max([t1, t2], key=rank): the first maximal element *)
 Definition orig_common_type (a b : ity) : ity := if basic_rank a <? basic_rank b then b else a.
-Definition sem_orig : semv := mk_semv (fun _ => TInt) orig_common_type.
+Definition sem_orig : semv := mk_semv (fun _ => TInt) orig_common_type false.
 
 (* the current code (commit c83990b = fixes/C01-common-type.diff) *)
 Definition c11_promote (c : cctx) (t : ity) : ity :=
@@ -64,7 +67,9 @@ Definition c11_common (c : cctx) (a b : ity) : ity :=
     if rs <=? ru then u
     else if sizeof c u <? sizeof c s then s
     else to_unsigned s.
-Definition sem_c11 (c : cctx) : semv := mk_semv (c11_promote c) (c11_common c).
+Definition sem_c11 (c : cctx) : semv := mk_semv (c11_promote c) (c11_common c) false.
+(* ... with fixes/C01-compound-assign.diff *)
+Definition sem_c11a (c : cctx) : semv := mk_semv (c11_promote c) (c11_common c) true.
 
 Section Elab.
   Variable sv : semv.
@@ -74,6 +79,8 @@ Section Elab.
     if ity_eqb (ttyp e) t then e else TCast e t.
   Definition promote_m (e : texpr) : texpr :=
     if mem_ty (ttyp e) promotable_types then coerce e (v_promote sv (ttyp e)) else e.
+  (* CSemantics._promoted_type *)
+  Definition ptype (t : ity) : ity := if mem_ty t promotable_types then v_promote sv t else t.
 
   Fixpoint elab (e : cx) : texpr :=
     match e with
@@ -105,8 +112,17 @@ Section Elab.
         TTern (elab c) (coerce a2 t) (coerce b2 t) t
     | XComma a b => let b' := elab b in TBin (elab a) OComma b' (ttyp b')
     | XAssign n a => TBin (TVar n (tvar te n)) OAssign (coerce (elab a) (tvar te n)) (tvar te n)
-    | XAssignOp op n a =>                                  (* rhs coerced to the type of the lhs, no promotion *)
-        TBin (TVar n (tvar te n)) (OAssignOp op) (coerce (elab a) (tvar te n)) (tvar te n)
+    | XAssignOp op n a =>
+        let tx := tvar te n in
+        let rhs :=
+          if v_cassign sv then                             (* the type of the rhs = the type of `x op e` *)
+            let b2 := promote_m (elab a) in
+            match op with
+            | BShl | BShr => coerce b2 (ptype tx)
+            | _ => coerce b2 (v_common sv (ptype tx) (ttyp b2))
+            end
+          else coerce (elab a) tx in                       (* rhs coerced to the type of the lhs, no promotion *)
+        TBin (TVar n tx) (OAssignOp op) rhs tx
     end.
 
   (* `T f(...) { return e; }` : on_return coerces to the return type *)
@@ -128,13 +144,13 @@ Section Agrees.
     ity_eqb (promote dm tx) tx &&
     (if is_shift op then true else ity_eqb (uac dm (promote dm tx) (promote dm tb)) tx).
   (* the compound assignments of e are of that kind *)
-  Fixpoint cassign_all (e : cx) : bool :=
+  Fixpoint cassign_all (fl : bool) (e : cx) : bool :=       (* fl = v_cassign: nothing to require *)
     match e with
     | XLit _ _ | XVar _ => true
-    | XCast _ a | XUn _ a | XAssign _ a => cassign_all a
-    | XBin _ a b | XComma a b => cassign_all a && cassign_all b
-    | XCond c a b => cassign_all c && cassign_all a && cassign_all b
-    | XAssignOp op n a => cassign_all a && cassign_ok op (tvar te n) (xtype_of dm te a)
+    | XCast _ a | XUn _ a | XAssign _ a => cassign_all fl a
+    | XBin _ a b | XComma a b => cassign_all fl a && cassign_all fl b
+    | XCond c a b => cassign_all fl c && cassign_all fl a && cassign_all fl b
+    | XAssignOp op n a => cassign_all fl a && (fl || cassign_ok op (tvar te n) (xtype_of dm te a))
     end.
   Fixpoint agrees (e : cx) : bool :=
     match e with
@@ -156,7 +172,12 @@ Section Agrees.
         agree_c (xtype_of dm te a) (xtype_of dm te b)
     | XComma a b => agrees a && agrees b
     | XAssign _ a => agrees a
-    | XAssignOp op n a => agrees a && cassign_ok op (tvar te n) (xtype_of dm te a)
+    | XAssignOp op n a =>
+        agrees a &&
+        (if v_cassign sv
+         then agree_p (tvar te n) && agree_p (xtype_of dm te a) &&
+              (if is_shift op then true else agree_c (tvar te n) (xtype_of dm te a))
+         else cassign_ok op (tvar te n) (xtype_of dm te a))
     end.
 End Agrees.
 
@@ -208,6 +229,7 @@ Inductive irx :=
   | XSeq (a b : irx)
   | XStore (n : nat) (a : irx)
   | XRmw (t : ty) (o : IRSyntax.binop) (n : nat) (rhs : irx)
+  | XRmwC (tx top : ty) (o : IRSyntax.binop) (n : nat) (rhs : irx)   (* x op= e computed in type top *)
   | XBad                                   (* outside the modelled fragment *)
 with irc :=
   | CCmp (c : cond) (a b : irx)
@@ -248,7 +270,7 @@ Section Lower.
             end
         | OAssignOp o =>
             match a, ir_binop o with
-            | TVar n _, Some i => nz t (XRmw (irty g t) i n (fst (low b)))
+            | TVar n _, Some i => nz t (XRmwC (irty g t) (irty g (ttyp b)) i n (fst (low b)))
             | _, _ => nz t XBad
             end
         end
@@ -286,6 +308,12 @@ Section Run.
     | XRmw t o n rhs =>
         '(vb, s1) <~ xrun rhs st ;; va <~ load_slot t s1 n ;;
         r <~ eval_binop c t o va vb ;; ODone (r, upd s1 n r)
+    | XRmwC tx top o n rhs =>
+        '(vb, s1) <~ xrun rhs st ;; va <~ load_slot tx s1 n ;;
+        va' <~ (if ty_eqb top tx then ODone va else as_int (eval_cast c top (Vint va))) ;;
+        r <~ eval_binop c top o va' vb ;;
+        r' <~ (if ty_eqb top tx then ODone r else as_int (eval_cast c tx (Vint r))) ;;
+        ODone (r', upd s1 n r')
     | XBad => OUnsupported
     end
   with crun (k : irc) (st : store) : outcome (bool * store) :=
@@ -370,6 +398,17 @@ Section Emit.
         let '(ra, s2) := new_val s1 (fun v => ILoad v "tmp_load" t (slot n) false) in
         let '(rr, s3) := new_val s2 (fun v => IBinop v "tmp" t o ra rb) in
         (rr, add_ins s3 (IStore rr (slot n) false))
+    | XRmwC tx top o n rhs =>
+        let '(rb, s1) := emit_x rhs s in
+        let '(ra, s2) := new_val s1 (fun v => ILoad v "tmp_load" tx (slot n) false) in
+        if ty_eqb top tx then
+          let '(rr, s3) := new_val s2 (fun v => IBinop v "tmp" tx o ra rb) in
+          (rr, add_ins s3 (IStore rr (slot n) false))
+        else
+          let '(rc, s3) := new_val s2 (fun v => ICast v "typecast" top ra) in
+          let '(rr, s4) := new_val s3 (fun v => IBinop v "tmp" top o rc rb) in
+          let '(rd, s5) := new_val s4 (fun v => ICast v "typecast" tx rr) in
+          (rd, add_ins s5 (IStore rd (slot n) false))
     | XBad => (Unres "bad", s)
     end
   with emit_c (k : irc) (yes no : nat) (s : estate) : estate :=
